@@ -646,7 +646,9 @@ func (sys *System) GetStats(ctx *Context) (*ServiceStats, error) {
 // ClearStats clear the System's stats.
 func (sys *System) ClearStats(ctx *Context) error {
 	Log(INFO, ctx, "System.ClearStats")
-	sys.stats = ServiceStats{}
+	// Requests for any location are updating these counters
+	// atomically as we speak.
+	sys.stats.Reset()
 	return nil
 }
 
